@@ -1,8 +1,9 @@
+#include "fixed_stream.hpp"
 #include "Template.hpp"
 #include "JSON.hpp"
 #include "vf.h"
 using namespace Qentem;
-typedef Value<char> V; typedef StringStream<char> SS;
+typedef Value<char> V; typedef FixedStream<char, 24> SS;
 #ifndef TPL
 #define TPL "{var:a}"
 #endif
